@@ -1,6 +1,6 @@
 (* C07, target-cursor mode, filters with New and Undo and any stop block (C07_seamless_target_nu of
    Spec/C07_More_Spec.v): the run shapes with the pass-through resolver (through_prefix) and the hub's answer "through
-   the cursor" (hub_through_shape), under the two agreement hypotheses of c07_seamless_target_partial. *)
+   the cursor" (hub_through_shape), under target_on_chain. *)
 From Coq Require Import Sorted.
 From BV Require Import Base.Prelude Model.Block Model.ForkDB Model.Forkable Model.ForkableLookups Model.Burst Model.Hub
   Model.CursorResolver Model.Joining
@@ -48,7 +48,6 @@ Section TgtRun.
 
   Let merged := filter (fun b => bnum b <? merged_end) canon.
   Hypothesis Hbound : Forall (fun b => bnum b < file_bound) merged.
-  Hypothesis Hfo : files_on_hub c w merged.
   Hypothesis Hto : target_on_chain c w cu.
 
   Let res := stream_run c w ps merged_end merged forked.
@@ -73,59 +72,12 @@ Section TgtRun.
   Lemma D_merged b : In b D -> In b merged.
   Proof. intros H. apply (dlv_in c canon start merged_end b) in H. tauto. Qed.
 
-  (* a join in target-cursor mode hands over the retained chain from the joining block on (target_joins of
-     C07_ComposeTarget.v without its filter / stop hypotheses) *)
+  (* a join in target-cursor mode hands over the retained chain from the joining block on *)
   Lemma target_joins' : joins_good U c merged w.
   Proof.
-    intros m lowest bn burst Hbn Ej.
-    unfold join_try in Ej. rewrite Hmode, Hcur in Ej. cbn [N.eqb] in Ej.
-    destruct ((lowest <=? bnum (eblk (fev bn))) && matches_new (estep (fev bn))); [|discriminate].
-    cbn [eblk file_event] in Ej.
-    destruct (hub_through_cursor (h_f (w_hub (world_after c m w))) (bnum bn) cu) as [evs| | |] eqn:Eb; try discriminate.
-    destruct (h_ready (w_hub (world_after c m w))) eqn:Hrd; [|discriminate]. injection Ej as <-.
-    split; [reflexivity|]. intros V HV. fold first kept in HV.
-    set (s := h_f (w_hub (world_after c m w))) in *.
-    destruct (hub_through_shape U first kept U_id U_uniq U_up s V (bnum bn) cu evs HV (fun hd sg H1 H2 H3 => Hto m hd sg Hrd H1 H2 H3) Eb)
-      as (hd & sg & pre & post & Hls & Eseg & Hgood & Hsg & Hpre & Hpost & Hevs & Hfirst & Hnonempty).
-    pose proof Hgood as [Hstd _ Hinc _].
-    assert (Hn : forall y, In y sg -> snum y = bnum (seg_blk y)).
-    { intros y Hy. rewrite Forall_forall in Hstd. exact (proj2 (Hstd y Hy)). }
-    destruct (vstate_segment U first kept U_id U_uniq U_up s V hd sg true HV Hls Eseg) as (_ & HsU & _).
-    assert (Hpne : post <> []).
-    { destruct Hnonempty as [H|[Hin Hle]]; [exact H|]. apply block_in_spec in Hin as (xB & HxB & HsB).
-      assert (EB : seg_blk xB = B).
-      { apply U_uniq; [rewrite Forall_forall in HsU; apply HsU; exact HxB | exact HBU|].
-        rewrite Forall_forall in Hstd. destruct (Hstd xB HxB) as [H1 _]. rewrite <- H1, HsB, <- HB. reflexivity. }
-      assert (HnB : snum xB = rn (cu_blk cu)) by (rewrite (Hn xB HxB), EB, <- HB; reflexivity).
-      intros E. rewrite E, app_nil_r in Hsg. rewrite Hsg in HxB. specialize (Hpre xB HxB). lia. }
-    destruct post as [|x0 r] eqn:Ep; [contradiction|].
-    destruct (seg_post_facts U first kept U_id U_uniq U_up s V hd sg pre x0 r HV Hls Eseg Hsg) as (Hhd & HpU & Hlr & Hlast & Hle).
-    assert (Hx0in : In x0 sg) by (rewrite Hsg; apply in_or_app; right; left; reflexivity).
-    assert (Hx0n : bnum bn <= snum x0) by (apply Hpost; left; reflexivity).
-    destruct sg as [|s0 sg0] eqn:Esg0; [destruct pre; discriminate|].
-    assert (Hs0 : snum s0 <= bnum bn).
-    { destruct pre as [|p0 pre0].
-      - destruct (Hfirst eq_refl ltac:(discriminate)) as (x0' & r' & E & Hx0'). injection E as <- <-.
-        cbn [app] in Hsg. injection Hsg as -> _. lia.
-      - cbn [app] in Hsg. injection Hsg as -> _. specialize (Hpre p0 (or_introl eq_refl)). lia. }
-    destruct (N.le_gt_cases (bnum bn) (bnum hd)) as [Hbh|Hbh].
-    2:{ exfalso. specialize (Hle x0 Hx0in). lia. }
-    destruct (Hfo m hd s0 sg0 bn Hrd Hls Eseg Hbn Hs0 Hbh) as (xb & Hxb & Exb).
-    assert (Hxbn : snum xb = bnum bn) by (rewrite (Hn xb Hxb), Exb; reflexivity).
-    assert (Exb0 : xb = x0).
-    { rewrite Hsg in Hxb. apply in_app_or in Hxb as [Hxb|[Hxb|Hxb]].
-      - specialize (Hpre xb Hxb). lia.
-      - symmetry. exact Hxb.
-      - exfalso. rewrite Hsg in Hinc. apply StronglySorted_app_r in Hinc. inversion Hinc as [|? ? _ Hall]; subst.
-        rewrite Forall_forall in Hall. specialize (Hall xb Hxb). rewrite Forall_forall in Hstd.
-        assert (H : snum x0 < snum xb) by (apply snum_lt_of; [apply Hstd; exact Hx0in | apply Hstd; rewrite Hsg; apply in_or_app; right; right; exact Hxb | exact Hall]).
-        lia. }
-    subst xb. rewrite Exb in *.
-    destruct Hlast as [l Hl]. exists hd, (map seg_blk r), l. split; [exact Hhd|]. split; [rewrite Hevs, map_eblk_snap; cbn [map]; rewrite Exb; reflexivity|].
-    split.
-    { rewrite Hevs. apply Forall_forall. intros e He. apply in_map_iff in He as (q & <- & _).
-      unfold snap_event. cbn [estep]. destruct (bnum (seg_blk q) <=? rn (libref (db s))); reflexivity. }
-    split; [exact HpU|]. split; [exact Hlr | exact Hl].
+    apply (target_joins_gen U c canon U_id U_uniq U_up HcU Hcl merged) with (cu := cu) (B := B);
+      [|exact HB | exact HBc | exact Hmode | exact Hcur | exact Hto].
+    intros b Hb. unfold merged in Hb. apply filter_In in Hb as [Hb _]. exact Hb.
   Qed.
 
   (* the pass-through resolver hands over a beginning D1 of the file blocks *)
@@ -264,7 +216,7 @@ End TgtRun.
 
 Lemma c07_seamless_target_nu_proof : C07_seamless_target_nu.
 Proof.
-  intros U c w ps merged_end canon forked cu B Hwfb Hlok [[l [Hl Hhub]] Hrest] Hchain Hincl merged Htip Hfo Hto
+  intros U c w ps merged_end canon forked cu B Hwfb Hlok [[l [Hl Hhub]] Hrest] Hchain Hincl merged Htip Hto
          Hmode Hcur Hnu Hbundle Hbound HBc HB res start Hstartblk.
   assert (Hscope : disc_scope2_b U = true) by (unfold disc_scope2_b; rewrite Hwfb, Hlok; reflexivity).
   pose proof (bridge_id U Hwfb) as Hid. pose proof (bridge_uniq U Hwfb) as Huniq. pose proof (bridge_up U Hwfb) as Hup.
@@ -272,12 +224,5 @@ Proof.
   assert (HW : WOK U c w).
   { split; [|exact Hrest]. rewrite Hhub. apply (hub_ok_run U (j_first c) (j_kept c) Hwfb Hlok l Hl). }
   exact (tgt_nu U c w ps merged_end canon forked cu B start Hid Huniq Hup Hdecl Hchain Hincl Hstartblk eq_refl HW Htip Hmode Hcur Hnu
-           Hbundle HBc HB Hbound Hfo Hto).
-Qed.
-
-Lemma c07_seamless_target_nu_final_proof : C07_seamless_target_nu_final.
-Proof.
-  intros U c w ps merged_end canon forked cu B Hwfb Hlok Hhub Hchain Hincl merged Htip Hff Hto.
-  apply (c07_seamless_target_nu_proof U c w ps merged_end canon forked cu B Hwfb Hlok Hhub Hchain Hincl Htip); [|exact Hto].
-  exact (Proofs.C07_FilesFinal.c07_files_final_on_hub_proof U c w merged_end canon Hwfb Hlok Hhub Hchain Hincl Htip Hff).
+           Hbundle HBc HB Hbound Hto).
 Qed.
